@@ -305,7 +305,7 @@ func TestC12(t *testing.T) {
 		return
 	}
 	rec.ReplayTier()
-	check(rec, "position-random", scale(15000, 400000), func(rt *rapid.T) {
+	check(rec, "position-random", scale(15000, 6000000), func(rt *rapid.T) {
 		c, labels := genC12(rt)
 		msg := c12Check(c)
 		has := func(l string) bool {
@@ -326,7 +326,7 @@ func TestC12(t *testing.T) {
 			rt.Fatalf("%s\n%s", msg, c.Src)
 		}
 	})
-	check(rec, "cli-diagnostic", scale(150, 3000), func(rt *rapid.T) {
+	check(rec, "cli-diagnostic", scale(150, 6000), func(rt *rapid.T) {
 		c, labels := genC12(rt)
 		msg := c12CLI(c)
 		rec.Case("cli\x00"+string(c.Src), true, append(labels, "cli")...)
